@@ -417,5 +417,131 @@ return p*100 + q + x
 			Entries: []*Entry{{Name: "§_F0", Params: []Kind{KInt}, Ret: KInt, Tuples: ints(0, 1)}},
 			NParams: map[string]int{"§_F0": 1, "¶_a": 0, "¶_b": 0, "¶_two": 0},
 		},
+		{
+			Kind: "corpus",
+			Note: "context restore: an unlabeled break that FOLLOWS a nested loop inside a switch clause refers to the switch (currentSwitch must be restored when the loop ends); no enclosing loop",
+			Plain: `func §_F0(x int) int {
+r := 0
+switch x {
+case 1:
+for i := 0; i < 2; i++ {
+r += 1
+}
+if r > 0 {
+break
+}
+r += 100
+case 2:
+for r < 5 {
+r += 2
+}
+break
+default:
+r += 7
+}
+return r + 1000
+}
+`,
+			Entries: []*Entry{{Name: "§_F0", Params: []Kind{KInt}, Ret: KInt, Tuples: ints(0, 1, 2, 3)}},
+			NParams: map[string]int{"§_F0": 1},
+		},
+		{
+			Kind: "corpus",
+			Note: "context restore: break / continue / fallthrough / return placed after a nested for, range and switch inside a switch clause inside a loop, depth 3",
+			Plain: `func §_F0(x int) int {
+r := 0
+xs := []int{1, 2, 3}
+for j := 0; j < 4; j++ {
+switch j {
+case 0:
+for i := 0; i < x; i++ {
+r += 1
+}
+if r >= 0 {
+break
+}
+r += 100
+case 1:
+for _, w := range xs {
+switch w {
+case 2:
+for k := 0; k < 2; k++ {
+r += 3
+}
+break
+}
+r += w
+}
+switch r {
+case 100:
+r = 0
+}
+if x > 1 {
+continue
+}
+r += 1000
+case 2:
+for i := 0; i < 2; i++ {
+r += 5
+}
+fallthrough
+case 3:
+{
+r += 7
+}
+if x == 3 && j == 3 {
+return r
+}
+}
+r += 10
+}
+return r
+}
+`,
+			Entries: []*Entry{{Name: "§_F0", Params: []Kind{KInt}, Ret: KInt, Tuples: ints(0, 1, 2, 3)}},
+			NParams: map[string]int{"§_F0": 1},
+		},
+		{
+			Kind:    "corpus",
+			Note:    "context restore: break L / continue L / break after a labeled nested loop and after an inlined call with a loop (testdata/inline.VarSum) inside a switch clause",
+			Imports: inlineImport,
+			Plain: `func §_F0(x int) int {
+r := 0
+Outer:
+for j := 0; j < 3; j++ {
+switch {
+case j == 0:
+Inner:
+for i := 0; i < 3; i++ {
+if i == x {
+continue Inner
+}
+if i == 2 {
+break Inner
+}
+r += 1
+}
+if x == 0 {
+continue Outer
+}
+r += inline.VarSum(x, 1, 2)
+if r > 3 {
+break
+}
+r += 50
+case j == 1:
+r += inline.VarSum(1, x)
+if x == 2 {
+break Outer
+}
+}
+r += 10
+}
+return r
+}
+`,
+			Entries: []*Entry{{Name: "§_F0", Params: []Kind{KInt}, Ret: KInt, Tuples: ints(0, 1, 2, 3)}},
+			NParams: map[string]int{"§_F0": 1},
+		},
 	}
 }
